@@ -6,19 +6,27 @@ import Canine.Proofs.Rns
 namespace Canine.Rns
 open Bank
 
-/-- Messages signed by anyone but the owner of a live name leave its record (owner, data,
-sub-records, expiry) exactly as it was — with the single exception of a purchase through a
-listing whose recorded lister is the current owner; then only owner and data change. -/
+/-- the canonicalisation table is idempotent: a canonical spelling is its own canonical spelling -/
+def CanonOK (s : State) : Prop := ∀ x y, acct s x = some y → acct s y = some y
+
+/-- two address strings denote the same account -/
+def SameAcct (s : State) (a b : String) : Prop := ∃ cc, acct s a = some cc ∧ acct s b = some cc
+
+/-- Messages signed by anyone but the owner's account (whatever spelling of an address is used)
+leave a live name's record (owner, data, sub-records, expiry) exactly as it was — with the
+single exception of a purchase through a listing whose recorded lister is the current owner;
+then only owner and data change. -/
 theorem C08_non_owner_messages_frame (s s' : State) (h : Int) (op : Op) (key : String) (w : NameRec)
-    (hw : AMap.get s.names key = some w) (hlive : h ≤ w.expires) (hne : op.creator ≠ w.value)
-    (hstep : step s h op = some s') :
+    (hw : AMap.get s.names key = some w) (hlive : h ≤ w.expires) (hcan : CanonOK s)
+    (hsig : ¬ SameAcct s op.creator w.value) (hstep : step s h op = some s') :
     AMap.get s'.names key = some w ∨
     (∃ raw n sale, op = .buy op.creator raw n ∧ AMap.get s.forsale n = some sale ∧
         sale.owner = w.value ∧
         AMap.get s'.names key = some { w with value := op.creator, data := "{}" }) := by
-  unfold step at hstep
-  split at hstep
-  case isFalse => simp at hstep
+  obtain ⟨cc, -, hcc, hstep⟩ := step_some hstep
+  -- neither the signer string as sent nor its canonical spelling is the recorded owner string
+  have hne : op.creator ≠ w.value := fun e => hsig ⟨cc, hcc, by rw [← e]; exact hcc⟩
+  have hne2 : w.value ≠ cc := fun e => hsig ⟨cc, hcc, by rw [e]; exact hcan _ _ hcc⟩
   cases op with
   | register c raw n dta y p =>
     simp only [handle, register, bind, Option.bind_eq_some_iff, req_eq_some] at hstep
@@ -33,8 +41,7 @@ theorem C08_non_owner_messages_frame (s s' : State) (h : Int) (op : Op) (key : S
     · rename_i hk
       rw [hk] at hex
       simp only [regExpiry, hw, hlive, if_true] at hex
-      simp only [Op.creator] at hne
-      simp [Ne.symm hne] at hex
+      simp [hne2] at hex
     · exact hw
   | list c raw n pr p =>
     simp only [handle, list, bind, Option.bind_eq_some_iff, req_eq_some] at hstep
@@ -48,7 +55,7 @@ theorem C08_non_owner_messages_frame (s s' : State) (h : Int) (op : Op) (key : S
     left; exact hw
   | buy c raw n =>
     simp only [handle, buy, bind, Option.bind_eq_some_iff, req_eq_some] at hstep
-    obtain ⟨sale, hsale, ⟨nm, tld⟩, -, w2, hw2, _, -, _, -, _, hown, pr, -, coins, -, b1, hb1, b2, hb2, hs⟩ := hstep
+    obtain ⟨sale, hsale, ⟨nm, tld⟩, -, w2, hw2, _, -, _, -, _, hown, seller, hseller, pr, -, coins, -, b1, hb1, b2, hb2, hs⟩ := hstep
     simp only [Option.some.injEq] at hs; subst hs
     simp only
     by_cases hk : nameKey nm tld = key
@@ -77,7 +84,7 @@ theorem C08_non_owner_messages_frame (s s' : State) (h : Int) (op : Op) (key : S
     simp only
     by_cases hk : nameKey nm tld = key
     · rw [hk, hw] at hw2; cases hw2
-      exact absurd hown.symm hne
+      exact absurd hown hne2
     · rw [AMap.get_set_other _ _ _ _ hk]; exact hw
   | transfer c raw n r =>
     simp only [handle, transfer, bind, Option.bind_eq_some_iff, req_eq_some] at hstep
@@ -87,7 +94,7 @@ theorem C08_non_owner_messages_frame (s s' : State) (h : Int) (op : Op) (key : S
     simp only
     by_cases hk : nameKey nm tld = key
     · rw [hk, hw] at hw2; cases hw2
-      exact absurd hown.symm hne
+      exact absurd hown hne2
     · rw [AMap.get_set_other _ _ _ _ hk]; exact hw
   | update c raw n dta =>
     simp only [handle, update, bind, Option.bind_eq_some_iff, req_eq_some] at hstep
@@ -97,7 +104,7 @@ theorem C08_non_owner_messages_frame (s s' : State) (h : Int) (op : Op) (key : S
     simp only
     by_cases hk : nameKey nm tld = key
     · rw [hk, hw] at hw2; cases hw2
-      exact absurd hown.symm hne
+      exact absurd hown hne2
     · rw [AMap.get_set_other _ _ _ _ hk]; exact hw
   | addRecord c raw n r rl v dta =>
     simp only [handle, addRecord, bind, Option.bind_eq_some_iff, req_eq_some] at hstep
@@ -140,36 +147,40 @@ end Canine.Rns
 namespace Canine.Rns
 open Bank
 
-/-- Whenever the owner of a live name changes, the message was a transfer or a bid acceptance
-signed by the owner, or a purchase through a listing recorded in the owner's name. -/
+/-- Whenever the owner string of a live name changes, the message was a transfer or a bid
+acceptance signed by the owner's account, or a purchase through a listing recorded in the owner's
+name. -/
 theorem C08_owner_change_characterisation (s s' : State) (h : Int) (op : Op) (key : String)
-    (w w' : NameRec) (hw : AMap.get s.names key = some w) (hlive : h ≤ w.expires)
+    (w w' : NameRec) (hw : AMap.get s.names key = some w) (hlive : h ≤ w.expires) (hcan : CanonOK s)
     (hstep : step s h op = some s') (hw' : AMap.get s'.names key = some w')
     (hchg : w'.value ≠ w.value) :
-    (∃ raw n r, op = .transfer w.value raw n r) ∨
-    (∃ raw n b, op = .acceptBid w.value raw n b) ∨
+    (∃ c raw n r, op = .transfer c raw n r ∧ SameAcct s c w.value) ∨
+    (∃ c raw n b, op = .acceptBid c raw n b ∧ SameAcct s c w.value) ∨
     (∃ c raw n sale, op = .buy c raw n ∧ c ≠ w.value ∧ AMap.get s.forsale n = some sale ∧
         sale.owner = w.value) := by
-  by_cases hc : op.creator = w.value
-  · -- signed by the owner: only transfer / acceptBid can change the owner field
-    unfold step at hstep
-    split at hstep
-    case isFalse => simp at hstep
+  by_cases hc : SameAcct s op.creator w.value
+  · -- signed by the owner's account: only transfer / acceptBid / a self-purchase can change the field
+    obtain ⟨cc, -, hcc, hstep⟩ := step_some hstep
     cases op with
-    | transfer c raw n r => left; simp only [Op.creator] at hc; subst hc; exact ⟨raw, n, r, rfl⟩
-    | acceptBid c raw n b => right; left; simp only [Op.creator] at hc; subst hc; exact ⟨raw, n, b, rfl⟩
+    | transfer c raw n r => left; exact ⟨c, raw, n, r, rfl, hc⟩
+    | acceptBid c raw n b => right; left; exact ⟨c, raw, n, b, rfl, hc⟩
     | register c raw n dta y p =>
       exfalso
       simp only [handle, register, bind, Option.bind_eq_some_iff, req_eq_some] at hstep
       obtain ⟨⟨nm, tld⟩, -, cost, -, _, -, ex, hex, b1, hb1, b2, hb2, hs⟩ := hstep
       simp only [Option.some.injEq] at hs
       have hn : s'.names = AMap.set s.names (nameKey nm tld)
-          { name := nm, tld := tld, expires := ex, value := c, data := dta, locked := 0, subs := [] } := by
+          { name := nm, tld := tld, expires := ex, value := cc, data := dta, locked := 0, subs := [] } := by
         subst hs; unfold setPrimaryIf; split <;> rfl
       rw [hn, AMap.get_set] at hw'
       split at hw'
-      · simp only [Option.some.injEq] at hw'; subst hw'
-        exact hchg hc
+      · rename_i hk
+        simp only [Option.some.injEq] at hw'; subst hw'
+        rw [hk] at hex
+        simp only [regExpiry, hw, hlive, if_true] at hex
+        by_cases e : w.value = cc
+        · exact hchg e.symm
+        · simp [e] at hex
       · rw [hw] at hw'; cases hw'; exact hchg rfl
     | list c raw n pr p =>
       exfalso
@@ -184,15 +195,15 @@ theorem C08_owner_change_characterisation (s s' : State) (h : Int) (op : Op) (ke
       simp only [Option.some.injEq] at hs; subst hs
       rw [hw] at hw'; cases hw'; exact hchg rfl
     | buy c raw n =>
-      exfalso
       simp only [handle, buy, bind, Option.bind_eq_some_iff, req_eq_some] at hstep
-      obtain ⟨sale, hsale, ⟨nm, tld⟩, -, w2, hw2, _, -, _, hnotown, _, hown, pr, -, coins, -, b1, hb1, b2, hb2, hs⟩ := hstep
+      obtain ⟨sale, hsale, ⟨nm, tld⟩, -, w2, hw2, _, -, _, hnotown, _, hown, seller, hseller, pr, -, coins, -, b1, hb1, b2, hb2, hs⟩ := hstep
       simp only [Option.some.injEq] at hs; subst hs
       simp only at hw'
       by_cases hk : nameKey nm tld = key
       · rw [hk, hw] at hw2; cases hw2
-        exact hnotown hc.symm
-      · rw [AMap.get_set_other _ _ _ _ hk, hw] at hw'; cases hw'; exact hchg rfl
+        right; right
+        exact ⟨c, raw, n, sale, rfl, fun e => hnotown e.symm, hsale, hown.symm⟩
+      · rw [AMap.get_set_other _ _ _ _ hk, hw] at hw'; cases hw'; exact absurd rfl hchg
     | bid c raw n pr p =>
       exfalso
       simp only [handle, bid, bind, Option.bind_eq_some_iff] at hstep
@@ -253,46 +264,53 @@ theorem C08_owner_change_characterisation (s s' : State) (h : Int) (op : Op) (ke
       obtain ⟨⟨nm, tld⟩, -, hs⟩ := hstep
       simp only [Option.some.injEq] at hs; subst hs
       rw [hw] at hw'; cases hw'; exact hchg rfl
-  · -- signed by someone else: only a purchase through the owner's listing
-    rcases C08_non_owner_messages_frame s s' h op key w hw hlive hc hstep with hsame | ⟨raw, n, sale, hop, hsale, hown, -⟩
+  · -- signed by another account: only a purchase through the owner's listing
+    have hne : op.creator ≠ w.value := by
+      obtain ⟨cc, -, hcc, -⟩ := step_some hstep
+      exact fun e => hc ⟨cc, hcc, by rw [← e]; exact hcc⟩
+    rcases C08_non_owner_messages_frame s s' h op key w hw hlive hcan hc hstep with hsame | ⟨raw, n, sale, hop, hsale, hown, -⟩
     · rw [hsame] at hw'; cases hw'; exact absurd rfl hchg
-    · right; right; exact ⟨op.creator, raw, n, sale, hop, hc, hsale, hown⟩
+    · right; right; exact ⟨op.creator, raw, n, sale, hop, hne, hsale, hown⟩
 
-/-- A purchase pays the full listed price to the account that owned the name immediately before,
-and debits the buyer by the same amount. -/
+/-- A purchase pays the full listed price to the account that owned the name immediately before
+(the account `seller` that the recorded owner string denotes), and debits the buyer's account
+`cc` by the same amount; the new record carries the signer string as sent. -/
 theorem C08_buy_pays_previous_owner (s s' : State) (h : Int) (c raw n : String)
-    (hm : s.moduleAcc ∈ s.blocked) (hcm : c ≠ s.moduleAcc)
+    (hm : s.moduleAcc ∈ s.blocked)
     (hstep : step s h (.buy c raw n) = some s') :
-    ∃ sale nm tld w dn a coins, AMap.get s.forsale n = some sale ∧ nameAndTLD n = some (nm, tld) ∧
+    ∃ cc seller sale nm tld w dn a coins, acct s c = some cc ∧ acct s w.value = some seller ∧
+      AMap.get s.forsale n = some sale ∧ nameAndTLD n = some (nm, tld) ∧
       AMap.get s.names (nameKey nm tld) = some w ∧ h ≤ w.expires ∧ sale.owner = w.value ∧ w.value ≠ c ∧
       sale.price = some (dn, a) ∧ newCoins dn a = some coins ∧
       AMap.get s'.names (nameKey nm tld) = some { w with value := c, data := "{}" } ∧
-      (∀ d, bal s'.bank w.value d = bal s.bank w.value d + amt d coins) ∧
-      (∀ d, bal s'.bank c d = bal s.bank c d - amt d coins) := by
-  unfold step at hstep
-  split at hstep
-  case isFalse => simp at hstep
+      (seller ≠ cc → cc ≠ s.moduleAcc →
+        (∀ d, bal s'.bank seller d = bal s.bank seller d + amt d coins) ∧
+        (∀ d, bal s'.bank cc d = bal s.bank cc d - amt d coins)) := by
+  obtain ⟨cc, -, hcc, hstep⟩ := step_some hstep
+  simp only [Op.creator] at hcc
   simp only [handle, buy, bind, Option.bind_eq_some_iff, req_eq_some] at hstep
-  obtain ⟨sale, hsale, ⟨nm, tld⟩, hnt, w, hw, _, hlive, _, hnotown, _, hown, ⟨dn, a⟩, hpr, coins, hcoins, b1, hb1, b2, hb2, hs⟩ := hstep
+  obtain ⟨sale, hsale, ⟨nm, tld⟩, hnt, w, hw, _, hlive, _, hnotown, _, hown, seller, hseller, ⟨dn, a⟩, hpr, coins, hcoins, b1, hb1, b2, hb2, hs⟩ := hstep
   simp only [Option.some.injEq] at hs; subst hs
-  refine ⟨sale, nm, tld, w, dn, a, coins, hsale, hnt, hw, hlive, hown.symm, hnotown, hpr, hcoins, by simp, ?_, ?_⟩
+  refine ⟨cc, seller, sale, nm, tld, w, dn, a, coins, hcc, by rw [hown]; exact hseller, hsale, hnt, hw,
+    hlive, hown.symm, hnotown, hpr, hcoins, by simp, ?_⟩
+  intro hsc hcm
+  have hne := sendFromModule_ne hb2 hm
+  refine ⟨?_, ?_⟩
   · intro d
-    rw [← hown] at hb2
-    have h2 := sendFromModule_bal hb2 w.value d
-    have h1 := bal_send hb1 w.value d
-    have hne := sendFromModule_ne hb2 hm
-    have e1 : ¬ s.moduleAcc = w.value := fun e => hne e.symm
-    have e2 : ¬ c = w.value := fun e => hnotown e.symm
+    have h2 := sendFromModule_bal hb2 seller d
+    have h1 := bal_send hb1 seller d
+    have e1 : ¬ s.moduleAcc = seller := fun e => hne e.symm
+    have e2 : ¬ cc = seller := fun e => hsc e.symm
     simp only [e1, e2, if_false, if_true] at h1 h2
-    show bal b2 w.value d = _
+    show bal b2 seller d = _
     rw [h2, h1]; omega
   · intro d
-    have h2 := sendFromModule_bal hb2 c d
-    have h1 := bal_send hb1 c d
-    have e1 : ¬ s.moduleAcc = c := fun e => hcm e.symm
-    have e2 : ¬ sale.owner = c := by rw [← hown]; exact hnotown
+    have h2 := sendFromModule_bal hb2 cc d
+    have h1 := bal_send hb1 cc d
+    have e1 : ¬ s.moduleAcc = cc := fun e => hcm e.symm
+    have e2 : ¬ seller = cc := hsc
     simp only [e1, e2, if_false, if_true] at h1 h2
-    show bal b2 c d = _
+    show bal b2 cc d = _
     rw [h2, h1]; omega
 
 /-- Listings are only ever written by `List`, in the name of its signer: if a listing is present
@@ -303,9 +321,7 @@ theorem C08_listing_created_only_by_its_owner (s s' : State) (h : Int) (op : Op)
     (hstep : step s h op = some s') :
     ∃ raw pr p nm tld w, op = .list l.owner raw k pr p ∧ nameAndTLD k = some (nm, tld) ∧
       AMap.get s.names (nameKey nm tld) = some w ∧ w.value = l.owner ∧ h ≤ w.expires := by
-  unfold step at hstep
-  split at hstep
-  case isFalse => simp at hstep
+  obtain ⟨cc, -, hcc, hstep⟩ := step_some hstep
   cases op with
   | list c raw n pr p =>
     simp only [handle, list, bind, Option.bind_eq_some_iff, req_eq_some] at hstep
@@ -338,7 +354,7 @@ theorem C08_listing_created_only_by_its_owner (s s' : State) (h : Int) (op : Op)
   | buy c raw n =>
     exfalso
     simp only [handle, buy, bind, Option.bind_eq_some_iff, req_eq_some] at hstep
-    obtain ⟨sale, hsale, ⟨nm, tld⟩, -, w2, hw2, _, -, _, -, _, -, pr, -, coins, -, b1, hb1, b2, hb2, hs⟩ := hstep
+    obtain ⟨sale, hsale, ⟨nm, tld⟩, -, w2, hw2, _, -, _, -, _, -, seller, hseller, pr, -, coins, -, b1, hb1, b2, hb2, hs⟩ := hstep
     simp only [Option.some.injEq] at hs; subst hs
     simp only at hl
     rw [AMap.get_erase] at hl
@@ -410,7 +426,8 @@ def staleState : State :=
   { names := [("foo.jkl", { name := "foo", tld := "jkl", expires := 100, value := "bob", data := "{}", locked := 0, subs := [] })],
     forsale := [("foo.jkl", { name := "foo.jkl", owner := "alice", priceRaw := "777ujkl", price := some ("ujkl", 777) })],
     bids := [], inits := [], primary := [],
-    bank := [(("carol", "ujkl"), 1000)], blocked := ["rnsmod"], moduleAcc := "rnsmod", polAcc := "pol" }
+    bank := [(("carol", "ujkl"), 1000)], blocked := ["rnsmod"], moduleAcc := "rnsmod", polAcc := "pol",
+    canon := [("alice", "alice"), ("bob", "bob"), ("carol", "carol"), ("dave", "dave"), ("BOB", "bob")] }
 
 /-- witness: the unfixed handler pays alice (stale lister) and bob (owner) gets nothing -/
 example : ((buyUnfixed staleState 5 "carol" "foo.jkl").map
@@ -423,5 +440,16 @@ succeeds (a bid) and an owner message that moves the name (transfer). -/
 example : (step staleState 5 (.bid "carol" "foo.jkl" "foo.jkl" "5ujkl" (some [("ujkl", 5)]))).isSome = true := by decide
 example : ((step staleState 5 (.transfer "bob" "foo.jkl" "foo.jkl" "dave")).bind
     (fun s => (AMap.get s.names "foo.jkl").map (·.value))) = some "dave" := by decide
+
+/-- the example state's address table is idempotent, and a differently spelled owner address
+(`"BOB"` denotes the account `"bob"`) still counts as the owner: the transfer goes through -/
+example : CanonOK staleState := by
+  intro x y h
+  simp only [acct, staleState, AMap.get] at h ⊢
+  repeat' split at h
+  all_goals first | (simp at h; subst h; decide) | (simp at h)
+example : ((step staleState 5 (.transfer "BOB" "foo.jkl" "foo.jkl" "dave")).bind
+    (fun s => (AMap.get s.names "foo.jkl").map (·.value))) = some "dave" := by decide
+example : SameAcct staleState "BOB" "bob" := ⟨"bob", by decide, by decide⟩
 
 end Canine.Rns
